@@ -722,8 +722,20 @@ func runC16(c *Check) {
 					switch {
 					case leaf.Op == "global" && leaf.Name == "context.Canceled":
 						ok = true
-					case strings.Contains(s, ".Internal."+mm):
-						ok = true // the transport error itself, or a wrap of it
+					case leaf.Contains(func(x *Term) bool {
+						// the transport error itself, or a wrap of it (the error value is an operand)
+						if x.V == nil || x.V.Type().String() != "error" {
+							return false
+						}
+						if ex, isEx := x.V.(*ssa.Extract); isEx {
+							if call, isCall := ex.Tuple.(*ssa.Call); isCall {
+								return isRPC(TermOf(call, x.Ctx)) && TermOf(call, x.Ctx).Op == "dyncall"
+							}
+							return false
+						}
+						return x.Op == "dyncall" && isRPC(x)
+					}):
+						ok = true
 					}
 					if !ok {
 						// is this return really reachable with the error set? (the success path shares returns)
@@ -788,6 +800,26 @@ func runC16(c *Check) {
 			}
 			c.NoteGraph(g)
 			n8++
+			// the RPC call instructions themselves (not calls that merely mention their results)
+			rpcCalls := map[ssa.Value]bool{}
+			for _, e := range okEdges {
+				t, _ := CondTerm(e)
+				t.Walk(func(x *Term) bool {
+					if x.Op == "dyncall" && x.V != nil && isRPC(x) {
+						rpcCalls[x.V] = true
+					}
+					return true
+				})
+			}
+			rpcErrVal := func(l *Term) bool {
+				if l.V == nil || l.V.Type().String() != "error" {
+					return false
+				}
+				if ex, ok := l.V.(*ssa.Extract); ok {
+					return rpcCalls[ex.Tuple]
+				}
+				return rpcCalls[l.V]
+			}
 			var bad []string
 			for _, x := range g.Exits {
 				if x.Ctx.Depth != 0 {
@@ -804,7 +836,7 @@ func runC16(c *Check) {
 					switch {
 					case l.Op == "const" && l.Name == "nil":
 					case l.Op == "global" && l.Name == "da.ErrBlobNotFound":
-					case strings.Contains(l.String(), ".Internal."+mm):
+					case rpcErrVal(l):
 						// the RPC's own error value (nil on this edge)
 					default:
 						bad = append(bad, trunc(l.String(), 60)+" @"+dp.InstrPos(x.In))
